@@ -37,6 +37,8 @@ def check_obligations(scratch, pid, repo=None):
             ok = False
             break
     closed = out.count("Closed under the global context")
-    return {"ok": ok, "stage": "coqc", "output": out[-3000:], "theorems": theorems, "closed": closed,
+    m = re.search(r"unknown_to_policy\s*=\s*(\[.*?\])\s*:\s*list string", out, re.S)
+    unknown = re.sub(r"\s+", " ", m.group(1)) if m else ""
+    return {"ok": ok, "unknown_to_policy": unknown, "stage": "coqc", "output": out[-3000:], "theorems": theorems, "closed": closed,
             "axioms": re.findall(r"^(\w+) :", out.split("Axioms:")[1], re.M) if "Axioms:" in out else [],
             "facts": facts, "wall_s": round(time.time() - t0, 2)}
